@@ -236,6 +236,10 @@ pub struct Session {
     /// matters the moment someone batches reads.
     #[serde(default)]
     pub max_chunk: usize,
+    /// Memory screen of this session in luma samples (0 = the default 2^22).  Only
+    /// sessions that deliberately decode a few very large VALID pictures raise it.
+    #[serde(default)]
+    pub screen: u64,
 }
 
 #[derive(Clone, Copy, Debug, PartialEq, Eq)]
